@@ -906,7 +906,9 @@ def run(tier, seed, replay=None):
             found.setdefault("C16:restore-on-failure", ("C16:restore-on-failure", text, dict(case=fc)))
         return list(found.values())
 
-    C.handle_proof(rep, PID, search)
+    # a broken proof must not hide behind an already listed finding: only NEW failing inputs explain it
+    known = {k["key"] for k in C.load_known() if k["property"] == PID and k.get("status") == "known"}
+    C.handle_proof(rep, PID, lambda: [f for f in search() if f[0] not in known])
     for f in search():
         rep.violation(*f)
     results = collect()
